@@ -1,2 +1,228 @@
--- stub: replaced by the slice's driver
-def main : IO Unit := IO.println "stub"
+import TriompheModel.Model.Layout
+/-!
+# `drv_layout` — the executable M2 model behind a line protocol (Tie B for C05 / C11 / C12-arith)
+
+One answer line per query line; answers are `key=value` fields separated by blanks, with the same
+keys the Rust harness binary `layout` prints.  Addresses are printed relative to the block base;
+the model computes them at the base `B` below so that a wrong subtraction cannot hide behind
+`Nat`'s truncating `-`.
+
+    sized  <bits> <size> <align> <ctor>                     ctor: new|frombox|uniq_uninit
+    hs     <bits> <Hsize> <Halign> <Tsize> <Talign> <len> <ctor>      ctor: iter|slice|vec|uninit
+    thin   <bits> <Hsize> <Halign> <Tsize> <Talign> <len> <ctor>      ctor: iter|slice
+    slice  <bits> <Tsize> <Talign> <len> <ctor>     ctor: from_ref|from_vec|iter_exact|iter_unknown|uninit
+    array  <bits> <Tsize> <Talign> <n>              Arc::new([T; n]) then unsized to Arc<[T]>
+    union  <bits> <size> <align> <which>            which: 1|2
+    widths <bits>
+    tag    <addr>
+    ext    <bits> <n> <a> <m> <b>                   Layout(n,a).extend(Layout(m,b)), pad_to_align
+    arr    <bits> <Tsize> <Talign> <n>              Layout::array::<T>(n)
+-/
+open LY
+
+def B : Nat := 2 ^ 40
+
+def kv (k : String) (v : Nat) : String := s!"{k}={v}"
+def lay (k : String) (l : Layout) : String := s!"{k}={l.size},{l.align}"
+/-- an address relative to the block base (may be negative if the model subtracts too much) -/
+def rel (k : String) (addr : Nat) : String := s!"{k}={(Int.ofNat addr) - (Int.ofNat B)}"
+def relOpt (k : String) (addr : Option Nat) : String :=
+  match addr with
+  | some a => rel k a
+  | none => s!"{k}=panic"
+def join (xs : List String) : String := " ".intercalate xs
+
+def nats (xs : List String) : Option (List Nat) := xs.mapM String.toNat?
+
+def sizedCtor? : String → Option SizedCtor
+  | "new" => some .boxNew | "frombox" => some .fromBox | "uniq_uninit" => some .uniqUninit | _ => none
+def hsCtor? : String → Option HsCtor
+  | "iter" => some .iter | "slice" => some .slice | "vec" => some .vec | "uninit" => some .uninit | _ => none
+def sliceCtor? : String → Option SliceCtor
+  | "from_ref" => some .fromRef | "from_vec" => some .fromVec | "iter_exact" => some .iterExact
+  | "iter_unknown" => some .iterUnknown | "uninit" => some .uninit | _ => none
+
+def refused : AllocRes → Option String
+  | .ok _ => none
+  | .zstRefused => some "st=panic:zst"
+  | .overflow => some "st=panic:layout-overflow"
+
+/-- fields common to every `Arc<P>` for a payload layout `p` living in a block at `B` -/
+def arcFields (bits : Nat) (p : Layout) : List String :=
+  [ lay "dealloc" (arcInnerLayout bits p).1,
+    rel "heap" (heapPtr B),
+    rel "as_ptr" (asPtr bits B p),
+    rel "deref" (derefAddr bits B p),
+    rel "borrow" (borrowArc bits B p),
+    kv "sov" p.size, kv "aov" p.align,
+    rel "into_raw" (intoRaw bits B p),
+    relOpt "rt_base" (fromRaw bits (intoRaw bits B p) p) ]
+
+def sizedFields (bits : Nat) (p : Layout) : List String :=
+  let d := intoRaw bits B p
+  let w1 := unionFromFirst d
+  let w2 := unionFromSecond d
+  let er := reprC2 unitLayout p
+  arcFields bits p ++
+  [ lay "dyn_dealloc" (arcInnerLayout bits (forValueDyn p)).1,
+    relOpt "dyn_rt_base" (fromRaw bits d (forValueDyn p)),
+    kv "dyn_sov" (forValueDyn p).size, kv "dyn_aov" (forValueDyn p).align,
+    rel "dyn_as_ptr" (asPtr bits B (forValueDyn p)),
+    rel "off_bits" (intoRawOffset bits B p),
+    rel "off_deref" (intoRawOffset bits B p),
+    relOpt "off_rt_base" (fromRawOffset bits (intoRawOffset bits B p) p),
+    rel "un1_bits" w1, kv "un1_low" (w1 % 2), kv "un1_first" (if isFirst w1 then 1 else 0),
+    rel "un1_borrow" (unionBorrow w1).2, kv "un1_var" (if (unionBorrow w1).1 then 1 else 2),
+    rel "un2_bits" w2, kv "un2_low" (w2 % 2), kv "un2_first" (if isFirst w2 then 1 else 0),
+    rel "un2_borrow" (unionBorrow w2).2, kv "un2_var" (if (unionBorrow w2).1 then 1 else 2),
+    rel "rc_as_ptr" (asPtr bits B p), rel "rc_into" (intoRaw bits B p),
+    relOpt "rc_rt_base" (fromRaw bits (intoRaw bits B p) p),
+    lay "er_dealloc" (arcInnerLayout bits er.1).1,
+    rel "er_as_ptr" (asPtr bits B er.1),
+    rel "er_slice" (asPtr bits B er.1 + er.2),
+    kv "er_sov" er.1.size ]
+
+def qSized (bits size align : Nat) (c : SizedCtor) : String :=
+  let p : Layout := ⟨size, align⟩
+  match ctorSized bits c p with
+  | .ok L => join (["st=ok", lay "alloc" L] ++ sizedFields bits p)
+  | r => (refused r).getD "?"
+
+def sliceElems (d so len tsize : Nat) : List String :=
+  [ rel "slice" (d + so), kv "slen" len ] ++
+  (if len = 0 then [] else [ rel "e0" (d + so), rel "elast" (d + so + (len - 1) * tsize) ])
+
+def qHs (bits : Nat) (H T : Layout) (len : Nat) (c : HsCtor) : String :=
+  match ctorHeaderSlice bits c H T len with
+  | .ok L =>
+    let pl := headerSliceLayout H T len
+    let d := asPtr bits B pl.1
+    join (["st=ok", lay "alloc" L] ++ arcFields bits pl.1 ++ [rel "hdr" d] ++ sliceElems d pl.2 len T.size)
+  | r => (refused r).getD "?"
+
+def qThin (bits : Nat) (H T : Layout) (len : Nat) (c : HsCtor) : String :=
+  let hwl := headerWithLengthLayout bits H
+  match ctorHeaderSlice bits c hwl.1 T len with
+  | .ok L =>
+    let pl := thinPayload bits H T len
+    let d := thinDerefAddr bits B H T len
+    join ([ "st=ok", lay "alloc" L, lay "dealloc" (arcInnerLayout bits pl.1).1,
+            rel "t_ptr" (thinPtr B), rel "t_heap" (thinHeapPtr B), rel "t_as_ptr" (thinAsPtr B),
+            rel "t_into_raw" (thinIntoRaw B), rel "rt_base" (thinFromRaw (thinIntoRaw B)),
+            rel "rc_as_ptr" (thinAsPtr B), rel "rc_into" (thinIntoRaw B),
+            rel "rc_rt_base" (thinFromRaw (thinIntoRaw B)),
+            rel "deref" d, rel "hdr" d, rel "lenf" (thinLengthAddr bits B H T),
+            rel "lenf_fat" (fatLengthAddr bits B H T len), kv "lenv" len,
+            kv "sov" pl.1.size, kv "aov" pl.1.align,
+            rel "fat_as_ptr" (asPtr bits B pl.1), rel "fat_heap" (heapPtr B),
+            kv "hwl_size" hwl.1.size, kv "hwl_align" hwl.1.align, kv "hwl_lenoff" hwl.2 ]
+          ++ sliceElems d pl.2 len T.size)
+  | r => (refused r).getD "?"
+
+def sliceView (bits : Nat) (T : Layout) (len : Nat) : List String :=
+  let p := sliceLayout T len
+  let d := asPtr bits B p
+  let er := headerSliceLayout unitLayout T len
+  arcFields bits p ++ sliceElems d 0 len T.size ++
+  [ lay "er_dealloc" (arcInnerLayout bits er.1).1,
+    rel "er_as_ptr" (asPtr bits B er.1),
+    rel "er_slice" (asPtr bits B er.1 + er.2),
+    kv "er_sov" er.1.size ]
+
+def qSlice (bits : Nat) (T : Layout) (len : Nat) (c : SliceCtor) : String :=
+  match ctorSlice bits c T len with
+  | .ok L => join (["st=ok", lay "alloc" L] ++ sliceView bits T len)
+  | r => (refused r).getD "?"
+
+def qArray (bits : Nat) (T : Layout) (n : Nat) : String :=
+  match ctorSized bits .boxNew (sliceLayout T n) with
+  | .ok L => join (["st=ok", lay "alloc" L] ++ sliceView bits T n)
+  | r => (refused r).getD "?"
+
+def qUnion (bits : Nat) (p : Layout) (which : Nat) : String :=
+  let d := intoRaw bits B p
+  let w := if which = 1 then unionFromFirst d else unionFromSecond d
+  join [ "st=ok", lay "alloc" (allocLayoutBoxNew bits p), lay "dealloc" (arcInnerLayout bits p).1,
+         rel "deref" (derefAddr bits B p), rel "bits" w, kv "low" (w % 2),
+         kv "first" (if isFirst w then 1 else 0), rel "borrow" (unionBorrow w).2,
+         kv "var" (if (unionBorrow w).1 then 1 else 2) ]
+
+def qWidths (bits : Nat) : String :=
+  let w := bits / 8
+  let thin := ["arc", "uniq", "offset", "thin", "borrow", "union", "arc_hs_sized"]
+  let fat := ["arc_slice", "arc_str", "arc_dyn", "arc_hs", "uniq_slice", "borrow_slice", "borrow_dyn"]
+  join (thin.flatMap (fun n => [kv n (handleWords false * w), kv ("o_" ++ n) (handleWords false * w)]) ++
+        fat.flatMap (fun n => [kv n (handleWords true * w), kv ("o_" ++ n) (handleWords true * w)]))
+
+def qTag (a : Nat) : String :=
+  join [ kv "or1" (tagSecond a), kv "clear" (untag a), kv "even" (if isFirst a then 1 else 0),
+         kv "or1_clear" (untag (tagSecond a)), kv "or1_even" (if isFirst (tagSecond a) then 1 else 0) ]
+
+def qExt (bits n a m b : Nat) : String :=
+  let l : Layout := ⟨n, a⟩
+  let e := match Layout.extend bits l ⟨m, b⟩ with
+    | some (x, off) => s!"ext={x.size},{x.align},{off} extpad={x.padToAlign.size}"
+    | none => "ext=err"
+  join [ e, kv "pad" l.padToAlign.size, kv "pnf" (l.paddingNeededFor b),
+         (match Layout.mk? bits n a with | some _ => "mk=ok" | none => "mk=err") ]
+
+def qArr (bits : Nat) (T : Layout) (n : Nat) : String :=
+  match Layout.array bits T n with
+  | some x => s!"arr={x.size},{x.align}"
+  | none => "arr=err"
+
+def answer (line : String) : String :=
+  match line.trimAscii.toString.splitOn " " |>.filter (· ≠ "") with
+  | ["sized", bits, s, a, c] =>
+    match nats [bits, s, a], sizedCtor? c with
+    | some [bits, s, a], some c => qSized bits s a c
+    | _, _ => "bad-query"
+  | ["hs", bits, hs, ha, ts, ta, len, c] =>
+    match nats [bits, hs, ha, ts, ta, len], hsCtor? c with
+    | some [bits, hs, ha, ts, ta, len], some c => qHs bits ⟨hs, ha⟩ ⟨ts, ta⟩ len c
+    | _, _ => "bad-query"
+  | ["thin", bits, hs, ha, ts, ta, len, c] =>
+    match nats [bits, hs, ha, ts, ta, len], hsCtor? c with
+    | some [bits, hs, ha, ts, ta, len], some c => qThin bits ⟨hs, ha⟩ ⟨ts, ta⟩ len c
+    | _, _ => "bad-query"
+  | ["slice", bits, ts, ta, len, c] =>
+    match nats [bits, ts, ta, len], sliceCtor? c with
+    | some [bits, ts, ta, len], some c => qSlice bits ⟨ts, ta⟩ len c
+    | _, _ => "bad-query"
+  | ["array", bits, ts, ta, n] =>
+    match nats [bits, ts, ta, n] with
+    | some [bits, ts, ta, n] => qArray bits ⟨ts, ta⟩ n
+    | _ => "bad-query"
+  | ["union", bits, s, a, which] =>
+    match nats [bits, s, a, which] with
+    | some [bits, s, a, which] => qUnion bits ⟨s, a⟩ which
+    | _ => "bad-query"
+  | ["widths", bits] =>
+    match bits.toNat? with
+    | some bits => qWidths bits
+    | none => "bad-query"
+  | ["tag", a] =>
+    match a.toNat? with
+    | some a => qTag a
+    | none => "bad-query"
+  | ["ext", bits, n, a, m, b] =>
+    match nats [bits, n, a, m, b] with
+    | some [bits, n, a, m, b] => qExt bits n a m b
+    | _ => "bad-query"
+  | ["arr", bits, ts, ta, n] =>
+    match nats [bits, ts, ta, n] with
+    | some [bits, ts, ta, n] => qArr bits ⟨ts, ta⟩ n
+    | _ => "bad-query"
+  | _ => "bad-query"
+
+partial def loop (stdin stdout : IO.FS.Stream) : IO Unit := do
+  let line ← stdin.getLine
+  if line.isEmpty then return ()
+  stdout.putStrLn (answer line)
+  loop stdin stdout
+
+def main : IO Unit := do
+  let stdin ← IO.getStdin
+  let stdout ← IO.getStdout
+  loop stdin stdout
+  stdout.flush
